@@ -21,6 +21,16 @@ CHECKS = {
          "For 3 scenarios x victim {holds an earlier definition, never saw the room} x attacker {member, outsider}, every single transformation of the honest export of a richer definition (omission, duplication, re-ordering, attacker-signed entries in every list at three dates, replay of validly signed entries across lists, groups and rooms, re-labelling, re-signing, grafted groups, attacker-authored definition rows) is delivered through the real signature check and add_room_node; after acceptance no stored entry may be removed or altered and the decision matrix of the resulting room must equal the oracle's for the old entries plus the legitimately added ones; after refusal nothing may change. Honest exports are also delivered in 12 orders/multiplicities and must converge.",
          "Member and outsider attackers are never entitled, so nothing they sign is legitimate. Single transformations only (pairs are not enumerated); omissions towards a victim that never saw the room are not judged. Trusts the rights oracle and the RoomModified event as the view of the resulting room.",
          "DESIGN.md section 5 C07"),
+ "C03": ("model_checking",
+         "exhaustive enumeration of directed pull orders (and single interruptions) after scripted multi-peer histories, real pull routine against real serving routine, cross-peer equality oracle",
+         "For each scripted history (creations, same-millisecond / same-day / cross-day concurrent updates, reference changes, deletions, second entity on the same / an earlier / a later day, definition change) on 3 real peers (2 and 4 in thorough) every sequence of directed pairwise synchronisations up to the length bound, plus every single interruption of a pull after n protocol answers, is executed with the real synchronise_room against the real process_inbound, followed by round-robin pulls until a full round writes nothing; then all members must hold identical rows, live references and deletion records, return identical JSON for a fixed query set, and quiescence must be reached within 3*n^2 rounds.",
+         "All members hold every right (authorisation is decided by C02/C12). Writes precede the enumerated pulls. Quiescence = SQLite data_version unchanged on every member during a full round. Bounds: order length 2 (quick) / 4 (thorough), 13-16 histories.",
+         "DESIGN.md section 5 C03"),
+ "C11": ("model_checking",
+         "exhaustive enumeration of directed pull orders after deletion histories with a tombstone monitor evaluated after every step",
+         "For each deletion history (node deleted the same day, on a later day by another peer, racing with an update, reference deleted on another peer) every sequence of directed pulls among 3 real peers (4 in thorough) up to the length bound is executed with the real pull and serving routines; after every step a monitor checks that no peer holding the deletion record shows the row or reference at the deleted or an older version, and after round-robin quiescence that the row is absent and the deletion record present on every member.",
+         "All members hold every right. The deletion record is the one written by the real deletion path. Bounds: order length 3 (quick) / 5 (thorough).",
+         "DESIGN.md section 5 C11"),
 }
 
 NOT_YET = {
